@@ -295,11 +295,81 @@ fn gen_conditions(ctx: &mut Ctx) -> Result<String, String> {
     Ok(out)
 }
 
+// ------------------------------------------------------------------ shard arithmetic (src/cache.rs)
+
+/// Arithmetic over `usize` with the named atoms → Lean `Nat` expression.
+fn nat_expr(e: &Expr, atoms: &[(&str, &str)]) -> Result<String, String> {
+    let s = squash(e);
+    if let Some((_, l)) = atoms.iter().find(|(src, _)| *src == s) { return Ok(l.to_string()); }
+    match e {
+        Expr::Paren(p) => nat_expr(&p.expr, atoms),
+        Expr::Lit(l) => match &l.lit { syn::Lit::Int(i) => Ok(i.base10_digits().to_string()), _ => Err(format!("unsupported literal `{s}`")) },
+        Expr::Cast(c) => nat_expr(&c.expr, atoms),
+        Expr::Binary(b) => {
+            let op = match b.op {
+                syn::BinOp::BitAnd(_) => "&&&", syn::BinOp::Rem(_) => "%", syn::BinOp::Sub(_) => "-", syn::BinOp::Add(_) => "+",
+                syn::BinOp::Mul(_) => "*", syn::BinOp::Shl(_) => "<<<", syn::BinOp::Shr(_) => ">>>", syn::BinOp::Div(_) => "/",
+                _ => return Err(format!("unsupported operator in `{s}`")),
+            };
+            Ok(format!("({} {op} {})", nat_expr(&b.left, atoms)?, nat_expr(&b.right, atoms)?))
+        }
+        Expr::MethodCall(m) if m.method == "next_power_of_two" && m.args.is_empty() => Ok(format!("(nextPow2 {})", nat_expr(&m.receiver, atoms)?)),
+        _ => Err(format!("unsupported expression `{s}`")),
+    }
+}
+
+fn gen_shards(ctx: &mut Ctx) -> Result<String, String> {
+    let file = ctx.file("src/cache.rs")?.clone();
+    let mut out = String::new();
+    for (fname, lean) in [("get_shard", "shardIndex"), ("get_shard_mut", "shardIndexMut")] {
+        let f = find_fn(&file, "AssetMap", fname)?;
+        let mut idx = None;
+        let mut hashes_key = false;
+        for st in &f.block.stmts {
+            if let Stmt::Local(l) = st {
+                if squash(&l.pat) == "id" { idx = Some(nat_expr(&l.init.as_ref().ok_or("no init")?.expr, &[("hasher.finish()", "hash"), ("self.shards.len()", "len")]).map_err(|e| format!("AssetMap::{fname}: {e}"))?); }
+            }
+            if squash(st) == "key.hash(&muthasher);" { hashes_key = true; }
+        }
+        let tail = f.block.stmts.last().map(|s| squash(s)).unwrap_or_default();
+        if !(tail == "&self.shards[id]" || tail == "&mutself.shards[id]") { return Err(format!("AssetMap::{fname}: does not return `shards[id]`")); }
+        if !hashes_key { return Err(format!("AssetMap::{fname}: `key.hash(&mut hasher)` not found")); }
+        let idx = idx.ok_or(format!("AssetMap::{fname}: `let id = …` not found"))?;
+        out.push_str(&format!("/-- `AssetMap::{fname}`: shard index from the key's hash and the number of shards -/\ndef {lean} (hash len : Nat) : Nat := {idx}\n\n"));
+    }
+    // AssetMap::new: `Ok(n) => 4 * n.get().next_power_of_two()`, `Err(_) => { …; 32 }`
+    let f = find_fn(&file, "AssetMap", "new")?;
+    let mut count = None;
+    let mut fallback = None;
+    if let Some(Stmt::Local(l)) = f.block.stmts.first() {
+        if let Some(init) = &l.init {
+            if let Expr::Match(m) = &*init.expr {
+                if squash(&m.expr) != "std::thread::available_parallelism()" { return Err("AssetMap::new: shard count does not come from available_parallelism()".into()); }
+                for arm in &m.arms {
+                    let p = squash(&arm.pat);
+                    if p == "Ok(n)" { count = Some(nat_expr(&arm.body, &[("n.get()", "n")]).map_err(|e| format!("AssetMap::new: {e}"))?); }
+                    else if p.starts_with("Err(") {
+                        if let Expr::Block(b) = &*arm.body { if let Some(Stmt::Expr(e, None)) = b.block.stmts.last() { fallback = Some(nat_expr(e, &[]).map_err(|e| format!("AssetMap::new: {e}"))?); } }
+                    }
+                }
+            }
+        }
+    }
+    let count = count.ok_or("AssetMap::new: shard count expression not found")?;
+    let fallback = fallback.ok_or("AssetMap::new: fallback shard count not found")?;
+    let body = squash(f.block);
+    if !body.contains("letshards=(0..shards).map(|_|Shard(RwLock::new(HashMap::with_hasher(hash_builder.clone())))).collect();") { return Err("AssetMap::new: shard vector construction not recognised".into()); }
+    out.push_str(&format!("/-- `AssetMap::new`: number of shards for `n` available CPUs -/\ndef shardCount (n : Nat) : Nat := {count}\n\ndef shardCountFallback : Nat := {fallback}\n\n"));
+    Ok(out)
+}
+
 pub fn gen(ctx: &mut Ctx) -> Result<String, String> {
     let mut out = String::from("import AmVerif.Model.Core\n\nnamespace AmVerif.Gen\nopen AmVerif.Model\n\n/-- `error::ErrorKind` -/\ninductive EK\n  | noDefault\n  | io (e : IoErr)\n  | conv (tag : String)\n  deriving DecidableEq, Repr\n\n");
     out.push_str(&gen_error_or(ctx)?);
     out.push_str(&gen_load_from_source(ctx)?);
     out.push_str(&gen_conditions(ctx)?);
+    out.push_str("/-- `usize::next_power_of_two` (smallest power of two ≥ n; 1 for 0) -/\ndef nextPow2Aux : Nat → Nat → Nat → Nat\n  | 0, p, _ => p\n  | f + 1, p, n => if p ≥ n then p else nextPow2Aux f (2 * p) n\ndef nextPow2 (n : Nat) : Nat := nextPow2Aux n 1 n\n\n");
+    out.push_str(&gen_shards(ctx)?);
     out.push_str("end AmVerif.Gen\n");
     Ok(out)
 }
